@@ -277,6 +277,9 @@ def gen_cfg(rng):
 def gen_op(rng, w, stats):
     """mostly-valid op from the world's last observed state"""
     s = w.last
+    _pend = w.__dict__.setdefault("pending", [])
+    if _pend:
+        return _pend.pop(0)
     r1, r2, S = s["r1"], s["r2"], s["S"]
     users = list(range(1, NUSERS + 1))
     c = rng.choice(users)
@@ -303,6 +306,14 @@ def gen_op(rng, w, stats):
             who = w.cfg["adder"] if (w.cfg.get("adder") and rng.random() < 0.85) else c
             return ["AddInitial", who, a1, a2]
         return ["Add", c, a1, a2, 1, 1]
+    if st == 1 and not w.__dict__.get("reseed_tried") and rng.random() < 0.04:
+        # the owner pauses a FUNDED pool and somebody calls addInitialLiquidity on it (must be refused: initial liquidity
+        # was already added - otherwise the LP supply is overwritten while the old LP tokens keep circulating); then resume
+        w.reseed_tried = True
+        who = w.cfg["adder"] if (w.cfg.get("adder") and rng.random() < 0.5) else c
+        a = rng.choice([2000, 5000, log_amount(rng) + 1001])
+        _pend.extend([["AddInitial", who, a, rng.choice([a, log_amount(rng) + 1001])], ["SetState", OWNER, 1]])
+        return ["SetState", OWNER, 0]
     if st != 1 and rng.random() < 0.45:
         return ["SetState", OWNER, 1]
     if not sh['wl'] and rng.random() < 0.08:
